@@ -1,9 +1,28 @@
 """C17 — a truncated file never yields wrong data.
 
-Proof (Props/C17.lean): `read_prefix` / `prefix_sound` — every byte the loader model delivers from
-a prefix of an image is the byte at the same position of the image (`slice_take`), a short section
-header read leaves the header zeroed (after the F8 fix), success with e_phnum>0 implies the stream
-never failed; see the evidence for what is discharged.  Memory safety is C01 instantiated.
+Proof (Props/C17.lean; for EVERY byte string img shorter than 2^63 — well-formed or not — every
+prefix length k, both stream kinds, eager and lazy, no address translation):
+ * `read_prefix` / `isolatedRead_prefix`: a complete read on the prefix delivers the bytes of the
+   complete image (`slice_take`);
+ * `secLoad_prefix(_hdr)` / `segLoad_prefix`: a section loaded from the prefix has the zeroed header
+   (short read; after the F8 fix) or exactly the header fields of the image's table slot; data is
+   absent or exactly the image's bytes of that range, which lies inside the prefix;
+ * `exposes_only_file_bytes(_requests)`: after the load and after any interleaving of lazy data
+   requests / frees, every resident section/segment buffer shows only bytes of the file;
+ * `prefix_sound` (+ `_section`, `_segment`): the composition over the loader's loops as a two-run
+   simulation — if the load of the prefix returns true, the load of the complete image returns true
+   with the identical ELF header, identical segments (8 fields, data, member lists; success with
+   e_phnum>0 implies the prefix stream never failed, hence no zeroed section), and section by section
+   the header is all-zero or identical, the data pointer null or the same bytes, and (for equal name
+   offsets) the section name empty or the same string;
+ * `prefix_load_safe`: memory safety is C01 instantiated.
+Partial (what is NOT a theorem, covered by correspondence + oracle only): the NAME of a *zeroed*
+section — it is the string at offset 0 of the name table, which is empty only when the table starts
+with NUL (the single place where well-formedness of the image enters; missing step: a hypothesis
+"the name table's first byte is NUL" carried through `namesPure_names` for the `SecRel.zero` case) —
+and the table read-outs of the accessor classes (symbols, notes, dynamic, ...: functions of the
+section data and header fields proved equal-or-absent here; their models belong to the accessor
+families).
 Correspondence + oracle: every prefix (quick: a stratified sample plus all lengths around table
 and data boundaries; thorough: every length) of encoder-built images and small examples, eager and
 lazy; the oracle compares the prefix's observation with the complete file's observation, field by
@@ -14,14 +33,21 @@ from families.loadcommon import *
 PROPERTY = "C17"
 FAMILY = "load"
 LEAN_MODULE = "ElfioVerif.Props.C17"
-THEOREMS = ["ElfioVerif.C17.read_prefix", "ElfioVerif.C17.isolatedRead_prefix"]
+THEOREMS = ["ElfioVerif.C17.read_prefix", "ElfioVerif.C17.isolatedRead_prefix",
+            "ElfioVerif.C17.secLoad_prefix_hdr", "ElfioVerif.C17.secLoad_prefix", "ElfioVerif.C17.segLoad_prefix",
+            "ElfioVerif.C17.exposes_only_file_bytes", "ElfioVerif.C17.exposes_only_file_bytes_requests",
+            "ElfioVerif.C17.prefix_load_safe",
+            "ElfioVerif.C17.secLoad_sim", "ElfioVerif.C17.segLoad_sim", "ElfioVerif.C17.loadSectionsLoop_sim",
+            "ElfioVerif.C17.namesPure_sim", "ElfioVerif.C17.namesPure_names", "ElfioVerif.C17.loadSegmentsLoop_sim",
+            "ElfioVerif.C17.prefix_sound", "ElfioVerif.C17.prefix_sound_section",
+            "ElfioVerif.C17.prefix_sound_segment"]
 SITES = ["conv", "load_s", "sec32_load", "sec64_load", "seg32_load", "seg64_load"]
 RULE = ("(image, k): object 0 loads the complete well-formed image, object 1 its prefix of length k, both "
         "observed identically; images from tools/elfspec.py in 4 configurations and small bundled examples; "
         "quick: k in a boundary-biased sample (every table/record/data boundary +-1, plus random), thorough: "
         "every k for images <= 2 KiB and a dense sample otherwise; x {eager,lazy}. non-trivial = the prefix "
         "loads (returns true); distinct by md5")
-ASSUMPTIONS = ["istringstream semantics (Model/IStream.lean)"]
+ASSUMPTIONS = ["istringstream/ifstream semantics (Model/IStream.lean)", "image shorter than 2^63 bytes (theorem hypothesis)", "no address translation"]
 TRUSTED = []
 KEEP_FIRST = 2
 
@@ -36,6 +62,9 @@ def boundaries(img):
             bs.add(eh["e_shoff"] + i * eh["e_shentsize"]); bs.add(eh["e_shoff"] + i * eh["e_shentsize"] + elfspec.SHSIZE[cls])
         for i in range(eh["e_phnum"] + 1):
             bs.add(eh["e_phoff"] + i * eh["e_phentsize"])
+            # cuts inside a program header record (after p_filesz: a half-read segment header)
+            for inside in (21, 25, 29, 41, 45, 53):
+                bs.add(eh["e_phoff"] + i * eh["e_phentsize"] + inside)
         for s in d["sections"]:
             bs |= {s["sh_offset"], s["sh_offset"] + s["sh_size"]}
     out = set()
@@ -57,6 +86,9 @@ def gen_cases(rng, tier):
     for i in range(n):
         cls, enc = CFGS[i % 4]
         imgs.append((f"g{i}", elfspec.encode(elfspec.random_model(rng, cls, enc, max_data=40))))
+    for i in range(4 if tier == "quick" else 16):
+        cls, enc = CFGS[i % 4]
+        imgs.append((f"t{i}", elfspec.encode(elfspec.random_model(rng, cls, enc, nseg=rng.choice([1, 2, 3]), max_data=40, pht_last=True))))
     for f, b in examples(3000 if tier == "quick" else 12000):
         if elfspec.wellformed(b):
             imgs.append((f, b))
